@@ -134,7 +134,7 @@ pub const fn request_pdu_len(adu_buf: &[u8]) -> Result<Option<usize>> {
         0x01..=0x06 => Some(5),
         0x07 | 0x0B | 0x0C | 0x11 => Some(1),
         0x0F | 0x10 => {
-            if adu_buf.len() > 10 {
+            if adu_buf.len() > 12 {
                 Some(6 + adu_buf[12] as usize)
             } else {
                 // incomplete frame
